@@ -297,15 +297,15 @@ var (
 	HueRotate         = regexp.MustCompile(`^hue-rotate\(([12]?[0-9]{1,2}|3[0-5][0-9]|360)?\)$`)
 	Invert            = regexp.MustCompile(`^invert\(([0-9]{1,2}|100)%\)$`)
 	Length            = regexp.MustCompile(`^[\-]?([0-9]+|[0-9]*[\.][0-9]+)(%|cm|mm|in|px|pt|pc|em|ex|ch|rem|vw|vh|vmin|vmax|deg|rad|turn)?$`)
-	Matrix            = regexp.MustCompile(`^matrix\(([ ]*[0-9]+[\.]?[0-9]*,){5}([ ]*[0-9]+[\.]?[0-9]*)\)$`)
-	Matrix3D          = regexp.MustCompile(`^matrix3d\(([ ]*[0-9]+[\.]?[0-9]*,){15}([ ]*[0-9]+[\.]?[0-9]*)\)$`)
+	Matrix            = regexp.MustCompile(`^matrix\(([ ]*(?:[0-9]+|[0-9]*\.[0-9]+),){5}([ ]*(?:[0-9]+|[0-9]*\.[0-9]+))\)$`)
+	Matrix3D          = regexp.MustCompile(`^matrix3d\(([ ]*(?:[0-9]+|[0-9]*\.[0-9]+),){15}([ ]*(?:[0-9]+|[0-9]*\.[0-9]+))\)$`)
 	NegTime           = regexp.MustCompile(`^[\-]?(?:[0-9]+|[0-9]*\.[0-9]+)(s|ms)?$`)
 	Numeric           = regexp.MustCompile(`^[0-9]+$`)
 	NumericDecimal    = regexp.MustCompile(`^(?:[0-9]+|[0-9]*\.[0-9]+)$`)
 	Opactiy           = regexp.MustCompile(`^opacity\(([0-9]{1,2}|100)%\)$`)
 	Perspective       = regexp.MustCompile(`^perspective\(`)
 	Position          = regexp.MustCompile(`^-?[0-9]+(?:cm|mm|in|px|pt|pc|%)?(?: -?[0-9]+(?:cm|mm|in|px|pt|pc|%)?)*$`)
-	Opacity           = regexp.MustCompile(`^((0[.]?[0-9]*)|(1\.0))$`)
+	Opacity           = regexp.MustCompile(`^((0(\.[0-9]+)?)|(1\.0))$`)
 	QuotedAlpha       = regexp.MustCompile(`^(?:"[a-z]+"|'[a-z]+')$`)
 	Quotes            = regexp.MustCompile(`^([ ]*(?:"[\x{0022}\x{0027}\x{2039}\x{2039}\x{203A}\x{00AB}\x{00BB}\x{2018}\x{2019}\x{201C}-\x{201E}]"|'[\x{0022}\x{0027}\x{2039}\x{2039}\x{203A}\x{00AB}\x{00BB}\x{2018}\x{2019}\x{201C}-\x{201E}]') (?:"[\x{0022}\x{0027}\x{2039}\x{2039}\x{203A}\x{00AB}\x{00BB}\x{2018}\x{2019}\x{201C}-\x{201E}]"|'[\x{0022}\x{0027}\x{2039}\x{2039}\x{203A}\x{00AB}\x{00BB}\x{2018}\x{2019}\x{201C}-\x{201E}]'))+$`)
 	Rect              = regexp.MustCompile(`^rect\([0-9]+px,[ ]*[0-9]+px,[ ]*[0-9]+px,[ ]*[0-9]+px\)$`)
